@@ -119,7 +119,9 @@ def run(an: Analysis, rep):
         "source variable is used in the role of its option (eval'd, compiled as \"<string>\" after un-escaping newlines, looked up as a "
         "module, read from a path); the object printed, the receiver of to_json_data() and the receiver of to_code() are the same "
         "variable, whose only definitions are CodeData.from_code(code) and normalize() of itself; normalize runs exactly when "
-        "--no-normalize is absent and --json/--dis/--dis-after/--source each guard their own output. Exit status and rendered text "
+        "--no-normalize is absent and --json/--dis/--dis-after/--source each guard their own output. R16.F folds the entry point over every "
+        "combination of the five flags for each of the four sources, and over 0 / 2 / 3 / 4 sources, with compile / eval / the file system / "
+        "importlib / from_code / normalize / the console replaced by recording symbols. Exit status and rendered text "
         "are not decided."
     )
     rep.rule("R16.1", "validation and dispatch use one option set and one null test", 3)
@@ -623,6 +625,8 @@ def r16f(an: Analysis, rep, rule="R16.F"):
             "CodeData": {"from_code": lambda c: data_tok("from_code", c)},
             "normalize": lambda d: data_tok("normalized", d),
             "linesep": "\n", "CodeType": type(None), "SystemExit": SystemExit,
+            "os": {"fspath": lambda p_: p_, "linesep": "\n", "fsdecode": lambda p_: p_,
+                   "path": {k_: (lambda p_, _k=k_: tok("os.path." + _k, p_)) for k_ in ("abspath", "realpath", "normpath", "expanduser", "basename", "relpath")}},
             "sys": {"exit": usage, "argv": ["prog"], "stderr": None},
         }
         ev = ObjEval(resolve, extra=extra)
